@@ -946,6 +946,9 @@ func (p *prover) condFacts(v ssa.Value, truth bool) []ineq {
 		}
 		v, truth = u.X, !truth
 	}
+	if ex, isEx := v.(*ssa.Extract); isEx && ex.Index == 0 && truth {
+		return p.mapRangeCount(ex)
+	}
 	b, ok := v.(*ssa.BinOp)
 	if !ok {
 		return nil
@@ -997,6 +1000,71 @@ func (p *prover) condFacts(v ssa.Value, truth bool) []ineq {
 		}
 	}
 	return nil
+}
+
+// mapRangeCount: inside the body of `for k := range m` a counter that starts at 0 and is advanced by one exactly
+// once per iteration counts the entries seen so far and is below len(m) — provided nothing in the loop can change
+// the map (no map update, no delete, no call besides len/append/cap).
+func (p *prover) mapRangeCount(ok *ssa.Extract) []ineq {
+	nx, isNext := ok.Tuple.(*ssa.Next)
+	if !isNext {
+		return nil
+	}
+	rg, isRange := nx.Iter.(*ssa.Range)
+	if !isRange {
+		return nil
+	}
+	if _, isMap := rg.X.Type().Underlying().(*types.Map); !isMap {
+		return nil
+	}
+	hdr := nx.Block()
+	lp := loopOf(hdr.Parent(), hdr)
+	if lp == nil {
+		return nil
+	}
+	for b := range lp {
+		for _, in := range b.Instrs {
+			switch x := in.(type) {
+			case *ssa.MapUpdate:
+				return nil
+			case ssa.CallInstruction:
+				switch BuiltinName(x) {
+				case "len", "cap", "append":
+				default:
+					return nil
+				}
+			}
+		}
+	}
+	var out []ineq
+	for _, in := range hdr.Instrs {
+		phi, isPhi := in.(*ssa.Phi)
+		if !isPhi {
+			break
+		}
+		if bt, isB := phi.Type().Underlying().(*types.Basic); !isB || bt.Info()&types.IsInteger == 0 {
+			continue
+		}
+		good := true
+		for i, e := range phi.Edges {
+			if lp[hdr.Preds[i]] {
+				b, isB := e.(*ssa.BinOp)
+				k, isK := int64(0), false
+				if isB {
+					k, isK = ConstInt(b.Y)
+				}
+				if !isB || b.Op != token.ADD || b.X != ssa.Value(phi) || !isK || k != 1 {
+					good = false
+				}
+			} else if k, isK := ConstInt(e); !isK || k != 0 {
+				good = false
+			}
+		}
+		if good {
+			out = append(out, leq(p.linOf(phi, 0), p.lenOf(rg.X, 0).sub(linConst(1)), "entries seen so far in a map range < len(map)"))
+		}
+	}
+	return out
 }
 
 func (p *prover) factsAt(b *ssa.BasicBlock) []ineq {
